@@ -174,14 +174,14 @@ def build_model_runner():
     with BuildLock():
         vos = walk(os.path.join(COQ, "Model"), (".vo",))
         stamp = os.path.join(OCAML, ".stamp")
-        inputs = walk(os.path.join(COQ, "Model"), (".v",)) + [os.path.join(COQ, "Extract.v")] + \
-            [os.path.join(OCAML, f) for f in ("conv.ml", "main.ml") ]
+        inputs = walk(os.path.join(COQ, "Model"), (".v",)) + [os.path.join(COQ, "Extract.v"), os.path.join(COQ, "Proofs", "SemP.v")] + \
+            [os.path.join(OCAML, f) for f in ("conv.ml", "irconv.ml", "main.ml")]
         digest = sha_files(inputs)
         if os.path.exists(stamp) and open(stamp).read() == digest and os.path.exists(os.path.join(OCAML, "modelrun")):
             return
         if not vos:
             raise CheckError("Coq model not built")
-        sh(["coqc", "-Q", "../coq/Model", "ASModel", "../coq/Extract.v"], cwd=OCAML, timeout=1200)
+        sh(["coqc", "-Q", "../coq/Model", "ASModel", "-Q", "../coq/Proofs", "ASProofs", "../coq/Extract.v"], cwd=OCAML, timeout=1200)
         mls = [f for f in ("conv.ml", "irconv.ml", "main.ml") if os.path.exists(os.path.join(OCAML, f))]
         sh(["ocamlfind", "ocamlopt", "-w", "-a", "-package", "str", "model.mli", "model.ml"] + mls +
            ["-o", "modelrun"], cwd=OCAML, timeout=1200)
@@ -361,3 +361,44 @@ def correspond(res, stream, cases, impl_out, model_out, describe, nontrivial, or
                       % (stream, len(dis), len(cases)),
                       {"stream": stream, "first_disagreement": {"case": describe(c), "case_line": c, "impl": a, "model": b}})
     return st
+
+
+# ------------------------------------------------------------- stage cache ---
+
+def repo_digest():
+    """content hash of everything under /repo that the harnesses compile"""
+    files = [p for p in walk(REPO, (".rs", ".toml", ".lock")) if "/target/" not in p]
+    return sha_files(files)
+
+
+def machinery_digest():
+    files = walk(os.path.join(VERIF, "tools"), (".py",)) + walk(os.path.join(VERIF, "harness"), (".rs", ".toml")) + \
+        walk(os.path.join(COQ, "Model"), (".v",)) + walk(OCAML, (".ml",))
+    files = [f for f in files if "/target/" not in f]
+    return sha_files(files)
+
+
+def cached(stage, key_parts, compute):
+    """Stage results are shared between the properties that use the same stage.  The key
+    covers /repo's sources, the machinery, the seed and the tier, so any edit invalidates it."""
+    import pickle
+    if os.environ.get("VERIF_NO_CACHE"):
+        return compute()
+    key = hashlib.sha256(("|".join([stage, repo_digest(), machinery_digest()] + [str(k) for k in key_parts])).encode()).hexdigest()[:24]
+    d = os.path.join(WORK, "cache")
+    os.makedirs(d, exist_ok=True)
+    path = os.path.join(d, "%s_%s.pkl" % (stage, key))
+    if os.path.exists(path):
+        try:
+            return pickle.load(open(path, "rb"))
+        except Exception:
+            pass
+    val = compute()
+    for old in os.listdir(d):
+        if old.startswith(stage + "_"):
+            try:
+                os.remove(os.path.join(d, old))
+            except OSError:
+                pass
+    pickle.dump(val, open(path, "wb"))
+    return val
